@@ -76,6 +76,52 @@ impl C09 {
             .and_then(|o| if o.len() == 32 { Ok(from_le(&o)) } else { Err(format!("output length {}", o.len())) }));
     }
 
+    /// A sequence of byte-level calls on ONE fresh thread (entry 0: rln::public, 1: FFI). codes 0..=4 are valid calls
+    /// whose result must equal the reference whatever came before: hash(""), hash("abc"), hash(137 x 'a'),
+    /// poseidon_hash([1]), poseidon_hash([1,2]); codes 5..=7 are malformed poseidon_hash inputs (declared count 2 with
+    /// one and a quarter elements, a 5-byte buffer, declared count 2^61 with no elements) whose own result is not judged.
+    fn seq(&self, entry: u8, codes: &[u8]) -> Vec<Discrepancy> {
+        let case = json!({"kind": "seq", "entry": entry, "calls": codes});
+        let codes: Vec<u8> = codes.to_vec();
+        let h = std::thread::spawn(move || -> Vec<(usize, String)> {
+            let mut bad = vec![];
+            for (k, c) in codes.iter().enumerate() {
+                let (is_hash, input, want): (bool, Vec<u8>, Option<BigUint>) = match c {
+                    0 => (true, vec![], Some(keccak::hash_to_field(b""))),
+                    1 => (true, b"abc".to_vec(), Some(keccak::hash_to_field(b"abc"))),
+                    2 => (true, vec![b'a'; 137], Some(keccak::hash_to_field(&vec![b'a'; 137]))),
+                    3 => (false, vec_fr_bytes(&[big(1)]), Some(poseidon::hash(&[big(1)]))),
+                    4 => (false, vec_fr_bytes(&[big(1), big(2)]), Some(poseidon::hash(&[big(1), big(2)]))),
+                    5 => (false, { let mut b = vec_fr_bytes(&[big(1), big(2)]); b.truncate(8 + 40); b }, None),
+                    6 => (false, vec![2, 0, 0, 0, 0], None),
+                    _ => (false, (1u64 << 61).to_le_bytes().to_vec(), None),
+                };
+                let got: Result<Result<Vec<u8>, String>, String> = if entry == 0 {
+                    guard(|| {
+                        let mut o = Vec::new();
+                        let r = if is_hash { rln::public::hash(&input[..], &mut o) } else { rln::public::poseidon_hash(&input[..], &mut o) };
+                        r.map(|_| o).map_err(|e| e.to_string())
+                    })
+                } else {
+                    guard(|| if is_hash { ffi_out(|i, o| rln::ffi::hash(i, o), &input) } else { ffi_out(|i, o| rln::ffi::poseidon_hash(i, o), &input) })
+                };
+                if let Some(w) = want {
+                    match got {
+                        Ok(Ok(o)) if o.len() == 32 && from_le(&o) == w => {}
+                        Ok(Ok(o)) => bad.push((k, format!("expected {} got {} ({} bytes)", w, from_le(&o), o.len()))),
+                        Ok(Err(e)) => bad.push((k, format!("a valid input was rejected: {e}"))),
+                        Err(p) => bad.push((k, format!("panic: {p}"))),
+                    }
+                }
+            }
+            bad
+        });
+        match h.join().unwrap_or_default().first() {
+            Some((k, d)) => vec![Discrepancy { key: format!("C09/{}/{}/after-other-calls/wrong-value", if codes_is_hash(&case, *k) { "hash_to_field" } else { "poseidon" }, if entry == 0 { "bytes" } else { "ffi" }), case: case.clone(), detail: format!("call number {k} of the sequence: {d}") }],
+            None => vec![],
+        }
+    }
+
     fn constants_case(&self, t: usize, out: &mut Vec<Discrepancy>) -> u64 {
         let case = json!({"kind": "constants", "t": t});
         let r = guard(|| {
@@ -101,6 +147,10 @@ impl C09 {
             Err(m) => { out.push(Discrepancy { key: format!("C09/constants/t-{}/panic", t), case, detail: m }); 0 }
         }
     }
+}
+
+fn codes_is_hash(case: &Value, k: usize) -> bool {
+    case["calls"][k].as_u64().map(|c| c <= 2).unwrap_or(false)
 }
 
 pub fn pattern(kind: &str, len: usize, seed: u64) -> Vec<u8> {
@@ -130,6 +180,7 @@ impl Prop for C09 {
                 self.h2f_case(&data, d, &mut out);
             }
             "constants" => { self.constants_case(case["t"].as_u64().unwrap() as usize, &mut out); }
+            "seq" => out.extend(self.seq(case["entry"].as_u64().unwrap_or(0) as u8, &case["calls"].as_array().cloned().unwrap_or_default().iter().map(|x| x.as_u64().unwrap_or(0) as u8).collect::<Vec<u8>>())),
             _ => {}
         }
         out
@@ -205,13 +256,36 @@ impl Prop for C09 {
         });
         for o in res { findings.report_all(o); }
 
-        let evals = (n_pos + h2f.len() as u64) * 5 + consts;
+        // byte-level call sequences on one fresh thread, valid and malformed calls mixed
+        let mut seqs: Vec<(u8, Vec<u8>)> = vec![];
+        {
+            let mut cur: Vec<Vec<u8>> = vec![vec![]];
+            for _ in 0..ctx.tier.pick(3, 4) {
+                let mut next = vec![];
+                for h in &cur {
+                    for c in 0u8..8 {
+                        let mut n = h.clone();
+                        n.push(c);
+                        next.push(n);
+                    }
+                }
+                for n in &next {
+                    seqs.push((0, n.clone()));
+                    seqs.push((1, n.clone()));
+                }
+                cur = next;
+            }
+        }
+        let sres = par_map(&seqs, ncpu(), |_, (e, c)| self.seq(*e, c));
+        for r in sres { findings.report_all(r); }
+        ev.set("call_sequences_on_one_thread", json!(seqs.len()));
+        let evals = (n_pos + h2f.len() as u64) * 5 + consts + seqs.len() as u64;
         ev.set("evaluations", json!(evals));
         ev.set("distinct_nontrivial", json!(n_pos + h2f.len() as u64 + 8));
         ev.set("poseidon_vectors", json!(n_pos));
         ev.set("hash_to_field_inputs", json!(h2f.len()));
         ev.set("constants_compared", json!(consts));
-        ev.set("rule", json!("Poseidon: for each arity n=1..8 every vector within k deviations of [1..n] over F* (k=2 for n<=3 quick / all n thorough, else 1), all-equal F* vectors, seeded randoms; deduplicated; each through typed, byte-level and FFI entry points (typed twice), on 16 threads. Constants: every round constant and MDS entry for t=2..9 against the reference Grain generation. hash_to_field: every length 0..=300 (600 thorough) x {00,ff,counter,random} + long inputs, same entry points. distinct_nontrivial counts distinct inputs (+8 constant sets), not calls."));
+        ev.set("rule", json!("Poseidon: for each arity n=1..8 every vector within k deviations of [1..n] over F* (k=2 for n<=3 quick / all n thorough, else 1), all-equal F* vectors, seeded randoms; deduplicated; each through typed, byte-level and FFI entry points (typed twice), on 16 threads. Constants: every round constant and MDS entry for t=2..9 against the reference Grain generation. hash_to_field: every length 0..=300 (600 thorough) x {00,ff,counter,random} + long inputs, same entry points. History independence: every sequence of up to 3 (thorough 4) byte-level calls over {hash of 3 inputs, poseidon_hash of 2 inputs, 3 malformed poseidon_hash inputs}, through rln::public and through the FFI, each sequence on a fresh thread, every valid call compared with the reference. distinct_nontrivial counts distinct inputs (+8 constant sets), not calls."));
         ev.set("deviation_bound", json!("k<=2 for every arity 1..8"));
         ev.set("exhaustive", json!(true));
         ev.sample(json!({"kind":"poseidon","inputs":["1","2"]}));
